@@ -87,9 +87,21 @@ func (g *gateLoader) BulkReload(ctx context.Context, keys, olds []int) (map[int]
 	return m, nil
 }
 
+// tracker counts running executor tasks. Unlike sync.WaitGroup it may be waited on while other
+// goroutines still submit tasks.
+type tracker struct{ n atomic.Int64 }
+
+func (t *tracker) Add(d int) { t.n.Add(int64(d)) }
+func (t *tracker) Done()     { t.n.Add(-1) }
+func (t *tracker) Wait() {
+	for t.n.Load() != 0 {
+		time.Sleep(20 * time.Microsecond)
+	}
+}
+
 func runC11(cfg c11Cfg) (violation, inconclusive string, readsDuring int) {
 	const k, v0, vN = 3, 1000, 2000
-	var wg sync.WaitGroup
+	var wg tracker
 	o := &otter.Options[int, int]{
 		RefreshCalculator: otter.RefreshWriting[int, int](time.Nanosecond),
 		ExpiryCalculator:  otter.ExpiryWriting[int, int](time.Hour),
@@ -156,6 +168,23 @@ func runC11(cfg c11Cfg) (violation, inconclusive string, readsDuring int) {
 		vmu.Unlock()
 	}
 	var calls sync.WaitGroup
+	// idle is closed once every refresh has been issued, the loader was released and the executor
+	// has no task left: by then every message must have been delivered (no wall-clock deadline)
+	var issued sync.WaitGroup
+	released := make(chan struct{})
+	idle := make(chan struct{})
+	switch cfg.Scenario {
+	case 1:
+		issued.Add(2)
+	case 2:
+		issued.Add(1)
+	}
+	go func() {
+		issued.Wait()
+		<-released
+		wg.Wait()
+		close(idle)
+	}()
 	switch cfg.Scenario {
 	case 0:
 		calls.Add(1)
@@ -172,21 +201,29 @@ func runC11(cfg c11Cfg) (violation, inconclusive string, readsDuring int) {
 			go func(i int) {
 				defer calls.Done()
 				ch := c.Refresh(ctx, k, g)
+				issued.Done()
 				if ch == nil {
 					fail("Refresh returned a nil channel although refreshing is configured")
 					return
 				}
+				who := fmt.Sprintf("Refresh caller %d", i)
 				select {
 				case r := <-ch:
-					fail(afterMessage(fmt.Sprintf("Refresh caller %d", i), r))
-				case <-time.After(20 * time.Second):
-					fail(fmt.Sprintf("Refresh caller %d received no message within 20 s", i))
-					return
+					fail(afterMessage(who, r))
+				case <-idle:
+					select {
+					case r := <-ch:
+						fail(afterMessage(who, r))
+					default:
+						fail(who + " received no message although every executor task has finished")
+						return
+					}
 				}
+				<-idle
 				select {
 				case r := <-ch:
-					fail(fmt.Sprintf("Refresh caller %d received a second message %+v", i, r))
-				case <-time.After(200 * time.Microsecond):
+					fail(fmt.Sprintf("%s received a second message %+v", who, r))
+				default:
 				}
 			}(i)
 		}
@@ -195,26 +232,36 @@ func runC11(cfg c11Cfg) (violation, inconclusive string, readsDuring int) {
 		go func() {
 			defer calls.Done()
 			ch := c.BulkRefresh(ctx, []int{k}, g)
+			issued.Done()
 			if ch == nil {
 				fail("BulkRefresh returned a nil channel although refreshing is configured")
 				return
 			}
-			select {
-			case rs := <-ch:
+			handle := func(rs []otter.RefreshResult[int, int]) {
 				if len(rs) != 1 {
 					fail(fmt.Sprintf("BulkRefresh delivered %d results for one key", len(rs)))
 					return
 				}
 				fail(afterMessage("the BulkRefresh caller", rs[0]))
-			case <-time.After(20 * time.Second):
-				fail("the BulkRefresh caller received no message within 20 s")
+			}
+			select {
+			case rs := <-ch:
+				handle(rs)
+			case <-idle:
+				select {
+				case rs := <-ch:
+					handle(rs)
+				default:
+					fail("the BulkRefresh caller received no message although every executor task has finished")
+				}
 			}
 		}()
 	}
 	select {
 	case <-g.entered:
-	case <-time.After(10 * time.Second):
+	case <-time.After(60 * time.Second):
 		close(g.release)
+		close(released)
 		return "", "the reload was never started", 0
 	}
 	// while the reload is in flight every reader keeps getting the old value
@@ -250,6 +297,7 @@ func runC11(cfg c11Cfg) (violation, inconclusive string, readsDuring int) {
 	}
 	rwg.Wait()
 	close(g.release)
+	close(released)
 	calls.Wait()
 	wg.Wait()
 	progress.Add(1)
